@@ -401,7 +401,7 @@ theorem prepare_quota_total (o : EpochOpts W) (p p1 : Pop W) (ex : ExecState) (r
             simp [C02.ukey, C02.skey, Function.comp_def]
           rw [e1, e2, hk2, hsorted, List.tail_cons]
           simp only [List.map_cons]
-          rw [C02.setTopOrg_key _ _ (by intro t; rfl)]
+          rw [C02.setTopOrg_key _ _ (by intro t; exact ⟨rfl, rfl⟩)]
           have := (hsp.map C02.ukey).map (fun k => k.1.1)
           rw [hsorted] at this
           simpa using this.symm
